@@ -115,35 +115,58 @@ def isStr (f : String) : J → Bool
   | .str s => s == f
   | _ => false
 
+/-- `while finalizer in …: body['metadata']['finalizers'].remove(finalizer)` (in place on the list) -/
+def stripFinalizer (f : String) (body : J) : Except DictErr J :=
+  match metaOf body with
+  | .error e => .error e
+  | .ok m =>
+    match finsOf m with
+    | .error e => .error e
+    | .ok none => .ok body
+    | .ok (some cur) =>
+        if cur.any (isStr f)
+        then ensure body ["metadata", "finalizers"] (.arr (cur.filter (fun x => !isStr f x)))
+        else .ok body
+
+/-- `if 'finalizers' in metadata and not metadata.get('finalizers'): del metadata['finalizers']` -/
+def dropEmptyFins (body : J) : Except DictErr J :=
+  match metaOf body with
+  | .error e => .error e
+  | .ok m =>
+    match body, m with
+    | .obj kvs, some mm =>
+        (match lookup "finalizers" mm with
+         | some (.arr []) => .ok (.obj (insert "metadata" (.obj (erase "finalizers" mm)) kvs))
+         | _ => .ok body)
+    | _, _ => .ok body
+
+/-- `if 'metadata' in body and not body['metadata']: del body['metadata']` -/
+def dropEmptyMeta (body : J) : Except DictErr J :=
+  match metaOf body with
+  | .error e => .error e
+  | .ok m =>
+    match body, m with
+    | .obj kvs, some [] => .ok (.obj (erase "metadata" kvs))
+    | _, _ => .ok body
+
 def applyFn (body : J) : Fn → Except DictErr J
-  | .addFinalizer f => do
-      let m ← metaOf body
-      let fs ← finsOf m
-      let cur := fs.getD []
-      if cur.any (isStr f) then pure body
-      else ensure body ["metadata", "finalizers"] (.arr (cur ++ [.str f]))
-  | .removeFinalizer f => do
-      let m ← metaOf body
-      let fs ← finsOf m
-      -- `while finalizer in …: ….remove(finalizer)` (in-place on the list)
-      let b1 ← match fs with
-        | some cur => if cur.any (isStr f)
-                      then ensure body ["metadata", "finalizers"] (.arr (cur.filter (fun x => !isStr f x)))
-                      else pure body
-        | none => pure body
-      -- `if 'finalizers' in metadata and not metadata.get('finalizers'): del metadata['finalizers']`
-      let m1 ← metaOf b1
-      let b2 := match b1, m1 with
-        | .obj kvs, some mm =>
-            (match lookup "finalizers" mm with
-             | some (.arr []) => .obj (insert "metadata" (.obj (erase "finalizers" mm)) kvs)
-             | _ => b1)
-        | _, _ => b1
-      -- `if 'metadata' in body and not body['metadata']: del body['metadata']`
-      let m2 ← metaOf b2
-      match b2, m2 with
-      | .obj kvs, some [] => pure (.obj (erase "metadata" kvs))
-      | _, _ => pure b2
+  | .addFinalizer f =>
+      match metaOf body with
+      | .error e => .error e
+      | .ok m =>
+        match finsOf m with
+        | .error e => .error e
+        | .ok fs =>
+          let cur := fs.getD []
+          if cur.any (isStr f) then .ok body
+          else ensure body ["metadata", "finalizers"] (.arr (cur ++ [.str f]))
+  | .removeFinalizer f =>
+      match stripFinalizer f body with
+      | .error e => .error e
+      | .ok b1 =>
+        match dropEmptyFins b1 with
+        | .error e => .error e
+        | .ok b2 => dropEmptyMeta b2
 
 def applyFns (body : J) : List Fn → Except DictErr J
   | [] => .ok body
@@ -206,16 +229,43 @@ structure Status where
   code : Int
   deriving DecidableEq, Repr
 
-structure Response where
+/-- `Op` = one RFC 6902 operation as produced by `jsonpatch` (opaque to the model). -/
+structure Response (Op : Type) where
   allowed : Bool
-  status : Option Status        -- present iff there are errors
+  status : Option Status          -- present iff there are errors
   warnings : Option (List String) -- present iff non-empty
-  deriving DecidableEq, Repr
+  patch : Option (List Op)        -- `response['patch']` (base64(json) of the ops): present iff `jsonpatch` is truthy
+  patchType : Option String       -- `'JSONPatch'`, present together with `patch`
+  deriving Repr
 
-def buildResponse (outs : List Outcome) (warnings : List String) : Response :=
+/-- `build_response(request, outcomes, warnings, jsonpatch)`. NB: the patch is attached whenever it
+    is non-empty — independently of `allowed`, i.e. also on denial. -/
+def buildResponse {Op : Type} (outs : List Outcome) (warnings : List String) (jsonpatch : List Op) :
+    Response Op :=
   { allowed := outs.all (fun o => o.isNone)
     status := (pickMin (errorsOf outs)).map (fun e => ⟨message e, statusCode e⟩)
-    warnings := if warnings.isEmpty then none else some warnings }
+    warnings := if warnings.isEmpty then none else some warnings
+    patch := if jsonpatch.isEmpty then none else some jsonpatch
+    patchType := if jsonpatch.isEmpty then none else some "JSONPatch" }
+
+/-! ## `Patch.as_json_patch` — the diff library is a parameter -/
+
+/-- `as_json_patch(body)`: `[]` when the patch is falsy (`len(self) == 0 and not self.fns`), else
+    `jsonpatch.JsonPatch.from_diff(body_as_is, body_to_be).patch` with `body_to_be = mutated …`.
+    `fromDiff` stands for the third-party `jsonpatch.from_diff`; nothing is assumed about it here. -/
+def asJsonPatch {Op : Type} (fromDiff : J → J → List Op) (body : J) (patch : List (String × J))
+    (fns : List Fn) : Except DictErr (List Op) :=
+  if patch.isEmpty && fns.isEmpty then .ok []
+  else match mutated body patch fns with
+    | .ok toBe => .ok (fromDiff body toBe)
+    | .error e => .error e
+
+/-- what the apiserver does with a response: apply the patch when there is one. `applyOps` stands
+    for an RFC 6902 applier. -/
+def appliedObject {Op : Type} (applyOps : J → List Op → Option J) (body : J) (r : Response Op) : Option J :=
+  match r.patch with
+  | none => some body
+  | some ops => applyOps body ops
 
 /-! ## the webhook gate: `WebhooksRegistry.iter_handlers` + `_matches_subresource` -/
 
@@ -260,5 +310,36 @@ def gate (h : Handler) (c : Cause) (m : Bool) : Bool :=
 /-- handlers selected for a cause, in registry order -/
 def select (hs : List (Handler × Bool)) (c : Cause) : List Handler :=
   (hs.filter (fun hm => gate hm.1 c hm.2)).map (·.1)
+
+/-! ## one admission review: selection, execution, response -/
+
+/-- what one handler invocation did, as far as the response reads it: the warnings it appended to the
+    shared `warnings` list (in order) and the exception it raised, if any. Its edits of the shared
+    `patch` object are accounted for by the final patch content / fns given to `serve`. -/
+structure Act where
+  warnings : List String
+  error : Outcome
+  deriving Repr
+
+/-- `serve_admission_request` after the cause is built: the selected handlers run in registry order
+    (`lifecycles.all_at_once`), `outcomes`/`warnings` are collected in that order, and the response
+    carries the JSON patch of the final patch object. -/
+def serve {Op : Type} (fromDiff : J → J → List Op) (hs : List (Handler × Bool)) (c : Cause)
+    (act : Handler → Act) (body : J) (patch : List (String × J)) (fns : List Fn) :
+    Except DictErr (Response Op) :=
+  let sel := select hs c
+  match asJsonPatch fromDiff body patch fns with
+  | .ok ops => .ok (buildResponse (sel.map (fun h => (act h).error)) (sel.flatMap (fun h => (act h).warnings)) ops)
+  | .error e => .error e
+
+/-! ## the managed webhook configuration (`build_webhooks`) as far as operations are concerned -/
+
+/-- `'operations': list(handler.operations or ['*'])` of the rule generated for the handler's own
+    webhook (whose URL carries the handler id: `_inject_handler_id(client_config, handler.id)`). -/
+def managedRuleOps (h : Handler) : List String :=
+  match h.operations with
+  | none => ["*"]
+  | some [] => ["*"]
+  | some ops => ops
 
 end Kopf.C18
